@@ -404,7 +404,12 @@ func c08Keys(c *core.Ctx, sp *packages.Package) {
 			b := p.Find("Bucket")
 			if b == nil || len(b.Args) != 1 || b.Args[0] != wantB || !strings.Contains(op.Recv, ".Bucket(") {
 				good = false
-				c.Fail("C08.keys", "Service."+m.name+"#bucket", op.Pos, "%s must address the bucket %s; addresses %v via %s", m.op, wantB, func() []string { if b != nil { return b.Args }; return nil }(), op.Recv)
+				c.Fail("C08.keys", "Service."+m.name+"#bucket", op.Pos, "%s must address the bucket %s; addresses %v via %s", m.op, wantB, func() []string {
+					if b != nil {
+						return b.Args
+					}
+					return nil
+				}(), op.Recv)
 			}
 			if len(op.Args) < 1 || op.Args[0] != wantK {
 				good = false
